@@ -171,7 +171,7 @@ impl C10 {
                 continue;
             }
             for (pos, i) in b.instructions().iter().enumerate() {
-                for r in i.scalars_read().unwrap_or_default() {
+                for r in crate::refeval::op_reads(i.operation()).iter() {
                     check_use(r, b.index(), pos as i64, format!("block {} instruction {}", b.index(), i.index()), &mut problems);
                 }
             }
@@ -179,7 +179,9 @@ impl C10 {
             for e in s.edges() {
                 if e.head() == b.index() {
                     if let Some(c) = e.condition() {
-                        for r in c.scalars() {
+                        let mut rs = Vec::new();
+                        crate::refeval::expr_scalars(c, &mut rs);
+                        for r in rs.iter() {
                             check_use(r, b.index(), end, format!("guard of edge {}->{}", e.head(), e.tail()), &mut problems);
                         }
                     }
